@@ -2,6 +2,6 @@
    ExtrOcamlBasic only (bool, option, unit, list, prod, sumbool, sumor -> OCaml's own); N, Z, positive, nat
    stay Coq datatypes.  No Extract Constant. *)
 From Coq Require Import Extraction ExtrOcamlBasic.
-From GR Require Import Base Glob.
+From GR Require Import Base Glob Resp.
 Extraction "model.ml" Glob.glob_match Glob.regexp_from_glob Glob.re_parse Glob.re_match
-  Base.itoa Base.atoi.
+  Base.itoa Base.atoi Resp.encode Resp.parse Resp.parse_rd Resp.parse_all Resp.wf.
